@@ -80,3 +80,19 @@ let () =
       String.concat "" (List.map (fun e -> if ahdr_okb (c15_hdr tbl) parse e then "1" else "0") (c15_entries tbl))
     | _ -> "?args")
 
+(* aw_fail: the writer on a destination where the files at the given paths fail on every write;
+   result: class | tree without those paths *)
+let () =
+  register "aw_fail" (function [tbl; fullps; segs] ->
+      let tbl = c15_table tbl in
+      let fps = if fullps = "-" then [] else List.map c15_path_of (String.split_on_char ';' fullps) in
+      let full p = List.mem p fps in
+      let tree st = c15_tree (List.filter (fun (p, _) -> not (full p)) (aw_close st).aw_fs) in
+      (match aw_writer_run_f (c15_parse tbl) full true (chunks_of segs) with
+       | AwDone st -> "ok|" ^ tree st
+       | AwFail (AwEHeader, st) -> "hdr|" ^ tree st
+       | AwFail (AwECreate, st) -> "create|" ^ tree st
+       | AwFail (AwEWrite, st) -> "write|" ^ tree st
+       | AwFuel -> "fuel")
+    | _ -> "?args")
+
